@@ -1,40 +1,50 @@
 /-
 C05 — Probe frames carry exactly the requested fields and are well formed.
-Property theorems only (lemmas: `Proofs/Fill.lean`).  The flag-name → header-bit half (CLI side) is
-C18's `flag_tables` + `C18_tcpflags_*`; here the filler takes the 9-bit flag set.
+Property theorems only (lemmas: `Proofs/Fill.lean` and its parts).  The decoder side (`ipFields`,
+`tcpFields`, …, `csumValid`, `LinkOK`, `datagram`) is `Spec/Fill.lean`: RFC field offsets and the RFC 1071
+sum, written without reference to the encoders of `Model/Fill.lean`.
 -/
+import SxVerif.Generated.Flags
+import SxVerif.Generated.Fill
+import SxVerif.Generated.Problems
 import SxVerif.Model.Fill
 import SxVerif.Spec.Fill
+import SxVerif.Spec.Parse
 import SxVerif.Proofs.Fill
 
 namespace SxVerif.C05
-open SxVerif.Frame (Bytes u16) SxVerif.Fill SxVerif.Spec.Fill
+open SxVerif.Frame (Bytes u16)
+open SxVerif.Fill SxVerif.Spec.Fill SxVerif.Generated
 
-/-- the IP datagram inside a frame: the frame itself in VPN mode, else what follows the Ethernet header
-    (cut to the IP total length, i.e. without Ethernet padding) -/
-def datagram (vpn : Bool) (frame : Bytes) (len : Nat) : Bytes :=
-  if vpn then frame else (frame.drop 14).take len
+theorem translator_clean : translatorProblems = [] := by decide
 
-/-- link layer of a non-VPN frame: requested MACs, EtherType, padded to the 60-byte minimum with zeros -/
-def LinkOK (frame : Bytes) (dstMAC srcMAC : Bytes) (etherType dgLen : Nat) : Prop :=
-  frame.take 6 = dstMAC ∧ (frame.drop 6).take 6 = srcMAC ∧ u16 frame 12 = some etherType ∧
-  frame.length = max 60 (14 + dgLen) ∧ ∀ b ∈ frame.drop (14 + dgLen), b = 0
+/-- the `math/rand` draws of the four fillers, regenerated from the source on every run, are the advertised
+    ones: IP id `1 + Intn(65535)`, source port `32768 + Intn(28232)`, any 32-bit sequence number, ICMP id
+    `1 + Intn(65535)`; nothing else is random.  These are the ranges `hid`, `hp`, `hs`, `hi` below. -/
+theorem C05_draws :
+    fillDraws = [("tcp", "IPv4.Id", "uint16", 1, 65535), ("tcp", "TCP.SrcPort", "TCPPort", 32768, 28232),
+      ("tcp", "TCP.Seq", "uint32", 0, 4294967296), ("udp", "IPv4.Id", "uint16", 1, 65535),
+      ("udp", "UDP.SrcPort", "UDPPort", 32768, 28232), ("icmp", "IPv4.Id", "uint16", 1, 65535),
+      ("icmp", "ICMPv4.Id", "uint16", 1, 65535)] := by decide
 
 /-- **C05, TCP**: for all 2^9 flag sets, all addresses/MACs/ports and all values of the three random
     draws, both link modes: the frame decodes (independent reader) to exactly the requested fields; IPv4
     header checksum and TCP checksum (over the pseudo-header) are valid; total length, IHL and data offset
-    are consistent; IP id is non-zero and the source port lies in 32768..60999. -/
+    are consistent; IP id is non-zero and the source port lies in 32768..60999.  In VPN mode nothing is
+    asked of the MACs. -/
 theorem C05_tcp (vpn : Bool) (flags : Nat) (r : Req) (rndId rndPort rndSeq : Nat)
-    (hr : ReqOK r.srcIP r.dstIP r.srcMAC r.dstMAC r.dstPort) (hf : flags < 512)
+    (hr : ReqOK vpn r.srcIP r.dstIP r.srcMAC r.dstMAC r.dstPort) (hf : flags < 512)
     (hid : rndId < 65535) (hp : rndPort < 28232) (hs : rndSeq < 2 ^ 32) :
     ∃ frame, fillTCP vpn flags r rndId rndPort rndSeq = .ok frame ∧
       let dg := datagram vpn frame 52
       (vpn = false → LinkOK frame r.dstMAC r.srcMAC 0x0800 52) ∧
       dg.length = 52 ∧
-      ipFields dg = some { version := 4, ihl := 5, totalLen := 52, id := 1 + rndId, flags := 2, fragOff := 0,
-                           ttl := 64, proto := 6, src := r.srcIP, dst := r.dstIP } ∧
+      ipFields dg = some {
+        version := 4, ihl := 5, totalLen := 52, id := 1 + rndId, flags := 2, fragOff := 0,
+        ttl := 64, proto := 6, src := r.srcIP, dst := r.dstIP } ∧
       csumValid (dg.take 20) ∧
-      tcpFields (dg.drop 20) = some { sport := 32768 + rndPort, dport := r.dstPort, seq := rndSeq, ack := 0,
+      tcpFields (dg.drop 20) = some {
+        sport := 32768 + rndPort, dport := r.dstPort, seq := rndSeq, ack := 0,
         dataOff := 8, flags := flags, window := 64240, urgent := 0,
         options := [2, 4, 0x05, 0xb4, 4, 2, 3, 3, 7, 0, 0, 0], payload := [] } ∧
       csumValid (dg.drop 20) (pseudoSum r.srcIP r.dstIP 6 32) ∧
@@ -45,7 +55,7 @@ theorem C05_tcp (vpn : Bool) (flags : Nat) (r : Req) (rndId rndPort rndSeq : Nat
     TTL / IP-flag / protocol values; with `--iplen` the override appears verbatim and every other field
     is as without it (in particular the UDP length stays 8 + payload). -/
 theorem C05_udp (o : IPOpts) (r : Req) (rndId rndPort : Nat)
-    (hr : ReqOK r.srcIP r.dstIP r.srcMAC r.dstMAC r.dstPort)
+    (hr : ReqOK o.vpn r.srcIP r.dstIP r.srcMAC r.dstMAC r.dstPort)
     (ho : o.ttl < 256 ∧ o.len < 65536 ∧ o.proto < 256 ∧ o.flags < 8 ∧ o.payload.length ≤ 65507)
     (hid : rndId < 65535) (hp : rndPort < 28232) :
     ∃ frame, fillUDP o r rndId rndPort = .ok frame ∧
@@ -53,18 +63,19 @@ theorem C05_udp (o : IPOpts) (r : Req) (rndId rndPort : Nat)
       let dg := datagram o.vpn frame n
       (o.vpn = false → LinkOK frame r.dstMAC r.srcMAC 0x0800 n) ∧
       dg.length = n ∧
-      ipFields dg = some { version := 4, ihl := 5, totalLen := if o.len = 0 then n else o.len, id := 1 + rndId,
-                           flags := o.flags, fragOff := 0, ttl := o.ttl, proto := o.proto, src := r.srcIP, dst := r.dstIP } ∧
+      ipFields dg = some {
+        version := 4, ihl := 5, totalLen := if o.len = 0 then n else o.len, id := 1 + rndId,
+        flags := o.flags, fragOff := 0, ttl := o.ttl, proto := o.proto, src := r.srcIP, dst := r.dstIP } ∧
       csumValid (dg.take 20) ∧
-      udpFields (dg.drop 20) = some { sport := 32768 + rndPort, dport := r.dstPort, len := 8 + o.payload.length,
-                                      payload := o.payload } ∧
+      udpFields (dg.drop 20) = some {
+        sport := 32768 + rndPort, dport := r.dstPort, len := 8 + o.payload.length, payload := o.payload } ∧
       csumValid (dg.drop 20) (pseudoSum r.srcIP r.dstIP 17 (8 + o.payload.length)) ∧
       1 ≤ 1 + rndId ∧ 1 + rndId ≤ 65535 ∧ 32768 ≤ 32768 + rndPort ∧ 32768 + rndPort ≤ 60999 :=
   Proofs.Fill.udp_ok o r rndId rndPort hr ho hid hp
 
-/-- **C05, ICMP**: all types, codes and payloads -/
+/-- **C05, ICMP**: all types, codes and payloads; both ids non-zero -/
 theorem C05_icmp (o : IPOpts) (typ code : Nat) (r : Req) (rndId rndIcmpId : Nat)
-    (hr : ReqOK r.srcIP r.dstIP r.srcMAC r.dstMAC r.dstPort)
+    (hr : ReqOK o.vpn r.srcIP r.dstIP r.srcMAC r.dstMAC r.dstPort)
     (ho : o.ttl < 256 ∧ o.len < 65536 ∧ o.proto < 256 ∧ o.flags < 8 ∧ o.payload.length ≤ 65507)
     (ht : typ < 256 ∧ code < 256) (hid : rndId < 65535) (hi : rndIcmpId < 65535) :
     ∃ frame, fillICMP o typ code r rndId rndIcmpId = .ok frame ∧
@@ -72,52 +83,122 @@ theorem C05_icmp (o : IPOpts) (typ code : Nat) (r : Req) (rndId rndIcmpId : Nat)
       let dg := datagram o.vpn frame n
       (o.vpn = false → LinkOK frame r.dstMAC r.srcMAC 0x0800 n) ∧
       dg.length = n ∧
-      ipFields dg = some { version := 4, ihl := 5, totalLen := if o.len = 0 then n else o.len, id := 1 + rndId,
-                           flags := o.flags, fragOff := 0, ttl := o.ttl, proto := o.proto, src := r.srcIP, dst := r.dstIP } ∧
+      ipFields dg = some {
+        version := 4, ihl := 5, totalLen := if o.len = 0 then n else o.len, id := 1 + rndId,
+        flags := o.flags, fragOff := 0, ttl := o.ttl, proto := o.proto, src := r.srcIP, dst := r.dstIP } ∧
       csumValid (dg.take 20) ∧
-      icmpFields (dg.drop 20) = some { typ := typ, code := code, id := 1 + rndIcmpId, seq := 1, payload := o.payload } ∧
-      csumValid (dg.drop 20) :=
+      icmpFields (dg.drop 20) = some {
+        typ := typ, code := code, id := 1 + rndIcmpId, seq := 1, payload := o.payload } ∧
+      csumValid (dg.drop 20) ∧
+      1 ≤ 1 + rndId ∧ 1 + rndId ≤ 65535 ∧ 1 ≤ 1 + rndIcmpId ∧ 1 + rndIcmpId ≤ 65535 :=
   Proofs.Fill.icmp_ok o typ code r rndId rndIcmpId hr ho ht hid hi
 
 /-- **C05, ARP**: a broadcast who-has for the requested address from the requested source -/
-theorem C05_arp (r : Req) (hr : ReqOK r.srcIP r.dstIP r.srcMAC r.dstMAC r.dstPort) :
+theorem C05_arp (r : Req) (hr : ArpReqOK r.srcIP r.dstIP r.srcMAC) :
     ∃ frame, fillARP r = .ok frame ∧
       LinkOK frame [0xff, 0xff, 0xff, 0xff, 0xff, 0xff] r.srcMAC 0x0806 28 ∧
-      arpFields (frame.drop 14) = some { htype := 1, ptype := 0x0800, hlen := 6, plen := 4, oper := 1,
+      arpFields (frame.drop 14) = some {
+        htype := 1, ptype := 0x0800, hlen := 6, plen := 4, oper := 1,
         sha := r.srcMAC, spa := r.srcIP, tha := [0, 0, 0, 0, 0, 0], tpa := r.dstIP } :=
   Proofs.Fill.arp_ok r hr
 
 /-- in VPN mode the frame is the same datagram without the Ethernet header (and without the padding
-    that only Ethernet adds) -/
+    that only Ethernet adds); all draws, no range needed -/
 theorem C05_vpn_same_datagram (flags : Nat) (r : Req) (a b c : Nat)
-    (hr : ReqOK r.srcIP r.dstIP r.srcMAC r.dstMAC r.dstPort) :
+    (hr : ReqOK false r.srcIP r.dstIP r.srcMAC r.dstMAC r.dstPort) :
     ∃ dg frame, fillTCP true flags r a b c = .ok dg ∧ fillTCP false flags r a b c = .ok frame ∧
       (frame.drop 14).take dg.length = dg :=
   Proofs.Fill.vpn_same_tcp flags r a b c hr
 
 theorem C05_vpn_same_datagram_udp (o : IPOpts) (r : Req) (a b : Nat)
-    (hr : ReqOK r.srcIP r.dstIP r.srcMAC r.dstMAC r.dstPort) :
+    (hr : ReqOK false r.srcIP r.dstIP r.srcMAC r.dstMAC r.dstPort) :
     ∃ dg frame, fillUDP { o with vpn := true } r a b = .ok dg ∧ fillUDP { o with vpn := false } r a b = .ok frame ∧
       (frame.drop 14).take dg.length = dg :=
   Proofs.Fill.vpn_same_udp o r a b hr
 
 theorem C05_vpn_same_datagram_icmp (o : IPOpts) (t c : Nat) (r : Req) (a b : Nat)
-    (hr : ReqOK r.srcIP r.dstIP r.srcMAC r.dstMAC r.dstPort) :
+    (hr : ReqOK false r.srcIP r.dstIP r.srcMAC r.dstMAC r.dstPort) :
     ∃ dg frame, fillICMP { o with vpn := true } t c r a b = .ok dg ∧ fillICMP { o with vpn := false } t c r a b = .ok frame ∧
       (frame.drop 14).take dg.length = dg :=
   Proofs.Fill.vpn_same_icmp o t c r a b hr
 
-/-- a request without a usable IPv4 source or destination never yields a frame -/
-theorem C05_bad_addresses_refused (vpn : Bool) (flags : Nat) (r : Req) (a b c : Nat)
-    (h : to4 r.srcIP = none ∨ to4 r.dstIP = none) : ∃ e, fillTCP vpn flags r a b c = .error e := by
-  unfold fillTCP
-  rcases h with h | h
-  · simp [h]
-  · cases hs : to4 r.srcIP <;> simp [h]
+/-- a request without a usable IPv4 source or destination, or (with an Ethernet header) without 6-byte
+    MACs, never yields a frame -/
+theorem C05_refused_tcp (vpn : Bool) (flags : Nat) (r : Req) (a b c : Nat)
+    (h : to4 r.srcIP = none ∨ to4 r.dstIP = none ∨ (vpn = false ∧ (r.srcMAC.length ≠ 6 ∨ r.dstMAC.length ≠ 6))) :
+    ∃ e, fillTCP vpn flags r a b c = .error e :=
+  Proofs.Fill.refused_tcp vpn flags r a b c h
 
--- non-vacuity (test, labelled as such): a frame captured from the real filler with these draws,
--- reproduced byte for byte by the model
+theorem C05_refused_udp (o : IPOpts) (r : Req) (a b : Nat)
+    (h : to4 r.srcIP = none ∨ to4 r.dstIP = none ∨ (o.vpn = false ∧ (r.srcMAC.length ≠ 6 ∨ r.dstMAC.length ≠ 6))) :
+    ∃ e, fillUDP o r a b = .error e :=
+  Proofs.Fill.refused_udp o r a b h
+
+theorem C05_refused_icmp (o : IPOpts) (t c : Nat) (r : Req) (a b : Nat)
+    (h : to4 r.srcIP = none ∨ to4 r.dstIP = none ∨ (o.vpn = false ∧ (r.srcMAC.length ≠ 6 ∨ r.dstMAC.length ≠ 6))) :
+    ∃ e, fillICMP o t c r a b = .error e :=
+  Proofs.Fill.refused_icmp o t c r a b h
+
+/-- the fillers see the addresses of a request only through `To4`: the 16-byte IPv4-mapped form of an
+    address gives the same frame as its 4-byte form, so the theorems above cover both -/
+theorem C05_addr_form (vpn : Bool) (flags : Nat) (o : IPOpts) (t c : Nat) (r r' : Req) (x y z : Nat)
+    (hs : to4 r.srcIP = to4 r'.srcIP) (hd : to4 r.dstIP = to4 r'.dstIP)
+    (hm : r.srcMAC = r'.srcMAC ∧ r.dstMAC = r'.dstMAC ∧ r.dstPort = r'.dstPort) :
+    fillTCP vpn flags r x y z = fillTCP vpn flags r' x y z ∧ fillUDP o r x y = fillUDP o r' x y ∧
+    fillICMP o t c r x y = fillICMP o t c r' x y :=
+  ⟨Proofs.Fill.addr_form_tcp vpn flags r r' x y z hs hd hm, Proofs.Fill.addr_form_udp o r r' x y hs hd hm,
+   Proofs.Fill.addr_form_icmp o t c r r' x y hs hd ⟨hm.1, hm.2.1⟩⟩
+
+theorem C05_mapped (a : Bytes) (h : a.length = 4) : to4 ([0, 0, 0, 0, 0, 0, 0, 0, 0, 0, 0xff, 0xff] ++ a) = some a ∧ to4 a = some a :=
+  ⟨Proofs.Fill.to4_mapped a h, Proofs.Fill.to4_of_len4 h⟩
+
+/-! ### CLI side: the value parsed is the value the filler receives -/
+
+/-- `--flags`: for every list of names the parser accepts (C18_tcpflags_exact: exactly the lists of table
+    names), the flag set the command's filler is built with — each name through its row of the table
+    regenerated from `tcpPacketFlagOptions`, the `WithXXX` options and the `layers.TCP` literal in `Fill` —
+    is the set of RFC 793/3168/3540 bits the names denote, and it fits the 9 bits -/
+theorem C05_cli_tcp_flags (names : List String) (h : ∀ n ∈ names, n ∈ tcpFlagTable.map (·.1)) :
+    flagsOfNames tcpFlagTable names = flagSet names ∧ flagSet names < 512 :=
+  Proofs.Fill.cli_flags names h
+
+/-- composition with `C05_tcp`: the probe of `tcp --flags names` carries exactly the named flags -/
+theorem C05_tcp_cli (vpn : Bool) (names : List String) (r : Req) (rndId rndPort rndSeq : Nat)
+    (h : ∀ n ∈ names, n ∈ tcpFlagTable.map (·.1))
+    (hr : ReqOK vpn r.srcIP r.dstIP r.srcMAC r.dstMAC r.dstPort)
+    (hid : rndId < 65535) (hp : rndPort < 28232) (hs : rndSeq < 2 ^ 32) :
+    ∃ frame t, fillTCP vpn (flagsOfNames tcpFlagTable names) r rndId rndPort rndSeq = .ok frame ∧
+      tcpFields ((datagram vpn frame 52).drop 20) = some t ∧ t.flags = flagSet names :=
+  Proofs.Fill.tcp_cli vpn names r rndId rndPort rndSeq h hr hid hp hs
+
+/-- the fixed-flag subcommands (`tcp syn`, `tcp fin`, `tcp null`, `tcp xmas`): the flag set their filler options
+    give the header, over the option lists regenerated from command/tcp_*.go, is the set that defines the
+    scan type: SYN; FIN; none; FIN+PSH+URG -/
+theorem C05_subcommand_flags :
+    tcpSubcommandFlags.map (fun e => (e.1, e.2.foldl (fun acc f => acc ||| tcpFieldBit f) 0)) =
+      [("syn", 2), ("fin", 1), ("null", 0), ("xmas", 1 + 8 + 32)] := by decide
+
+/-- `--ipflags`: every value the parser can return (C18_ipflags_exact: the union of the table bits of the
+    names) fits the 3-bit field, i.e. satisfies the `o.flags < 8` hypothesis of `C05_udp` / `C05_icmp`;
+    `--ttl`, `--ipproto`, `--type`, `--code` are `uint8` flags and `--iplen` a `uint16` flag, which gives the
+    other bounds -/
+theorem C05_cli_ipflags (names : List String) (v : Nat) (h : Spec.Parse.flagBits ipFlagTable names = some v) : v < 8 :=
+  Proofs.Fill.cli_ipflags names v h
+
+/-! ### non-vacuity (tests, labelled as such) -/
+
+-- a frame captured from the real filler with these draws, reproduced byte for byte by the model
 example : fillTCP true 0 { srcIP := [221, 241, 88, 26], dstIP := [182, 149, 37, 226], srcMAC := [], dstMAC := [], dstPort := 7826 } 52054 18705 1905190105
-    = .ok [69, 0, 0, 52, 203, 87, 64, 0, 64, 6, 92, 233, 221, 241, 88, 26, 182, 149, 37, 226, 201, 17, 30, 146, 113, 142, 228, 217, 0, 0, 0, 0, 128, 0, 250, 240, 30, 155, 0, 0, 2, 4, 5, 180, 4, 2, 3, 3, 7, 0, 0, 0] := by decide
+    = .ok [69, 0, 0, 52, 203, 87, 64, 0, 64, 6, 92, 233, 221, 241, 88, 26, 182, 149, 37, 226, 201, 17, 30, 146, 113, 142, 228, 217, 0, 0, 0, 0, 128, 0, 250, 240, 30, 155, 0, 0, 2, 4, 5, 180, 4, 2, 3, 3, 7, 0, 0, 0] := by rfl
+
+-- the hypotheses are satisfiable: a VPN request with empty MACs, an Ethernet request, an ARP request
+example : ReqOK true [10, 0, 0, 1] [10, 0, 0, 2] [] [] 443 := ⟨rfl, rfl, by decide, by simp⟩
+example : ReqOK false [10, 0, 0, 1] [10, 0, 0, 2] [2, 0, 0, 0, 0, 1] [2, 0, 0, 0, 0, 2] 65535 := ⟨rfl, rfl, by decide, by simp⟩
+example : ArpReqOK [10, 0, 0, 1] [10, 0, 0, 2] [2, 0, 0, 0, 0, 1] := ⟨rfl, rfl, rfl⟩
+example : flagSet ["syn", "ack", "ns"] = 274 := by decide
+-- odd payload: the checksum of a 3-byte UDP payload checks
+example : ∃ f, fillUDP { ttl := 64, len := 0, proto := 17, flags := 2, payload := [1, 2, 3], vpn := true }
+    { srcIP := [10, 0, 0, 1], dstIP := [10, 0, 0, 2], srcMAC := [], dstMAC := [], dstPort := 53 } 0 0 = .ok f ∧
+    csumValid (f.drop 20) (pseudoSum [10, 0, 0, 1] [10, 0, 0, 2] 17 11) := ⟨_, rfl, by decide⟩
 
 end SxVerif.C05
